@@ -16,7 +16,7 @@ import (
 // C06: natural-language text survives both codecs byte for byte.
 
 var textProps = []string{"name", "summary", "content", "preferredUsername", "source.content", "source.content-only"}
-var textForms = []string{"single-untagged", "single-tagged", "map-entry", "map-entry-untagged"}
+var textForms = []string{"single-untagged", "single-tagged", "map-entry", "map-entry-untagged", "map-same-text"}
 var textCodecs = []string{"json-pkg", "json-method", "gob-pkg", "gob-method"}
 
 // text corpus by class (valid UTF-8 only: the statement's domain)
@@ -106,6 +106,18 @@ func buildTextValue(prop, form, s string, r *rand.Rand) (vocab.Item, func(any) (
 		nlv = vocab.NaturalLanguageValues{{Ref: vocab.NilLangRef, Value: vocab.Content(s)}}
 	case "single-tagged":
 		nlv = vocab.NaturalLanguageValues{{Ref: textTags[r.Intn(len(textTags))], Value: vocab.Content(s)}}
+	case "map-same-text":
+		// two or three tags carrying byte-identical text (a place name is the same in many languages)
+		tags := append([]vocab.LangRef{}, textTags...)
+		r.Shuffle(len(tags), func(i, j int) { tags[i], tags[j] = tags[j], tags[i] })
+		n := 3 + r.Intn(2)
+		for i := 0; i < n; i++ {
+			t := s
+			if i == n-1 {
+				t = "a different text"
+			}
+			nlv = append(nlv, vocab.LangRefValue{Ref: tags[i], Value: vocab.Content(t)})
+		}
 	case "map-entry-untagged":
 		// the text sits in the untagged entry of a list that also has tagged ones
 		n := 2 + r.Intn(2)
@@ -174,9 +186,50 @@ func buildTextValue(prop, form, s string, r *rand.Rand) (vocab.Item, func(any) (
 	}
 	var x vocab.Item = p.(vocab.Item)
 	if nested {
-		x = &vocab.Activity{ID: "https://example.com/text/outer", Type: vocab.AnnounceType, Object: x}
+		// the outer value carries the same property with a text of its own (same length, other bytes), written before the inner one
+		outer := &vocab.Activity{ID: "https://example.com/text/outer", Type: vocab.AnnounceType, Object: x}
+		ot := vocab.NaturalLanguageValues{{Ref: vocab.NilLangRef, Value: vocab.Content(outerText(s))}}
+		switch fieldName {
+		case "Source":
+			outer.Source = vocab.Source{Content: ot, MediaType: "text/plain"}
+		case "PreferredUsername":
+			outer.Name = ot
+		default:
+			reflect.ValueOf(outer).Elem().FieldByName(fieldName).Set(reflect.ValueOf(ot))
+		}
+		x = outer
 	}
 	return x, get, nlv, fmt.Sprintf("%s[%s] nested=%v", k.Name, typ, nested)
+}
+
+// outerText: a text of the same length as s that differs from it in every byte position that allows it
+func outerText(s string) string {
+	b := []byte(s)
+	for i := range b {
+		if b[i] < 0x80 && b[i] != 'o' {
+			b[i] = 'o'
+		} else if b[i] == 'o' {
+			b[i] = 'O'
+		}
+	}
+	if string(b) == s || !utf8.Valid(b) {
+		return "outer " + s
+	}
+	return string(b)
+}
+
+func outerTextOf(x any, fieldName string) (vocab.NaturalLanguageValues, bool) {
+	a, ok := x.(*vocab.Activity)
+	if !ok || a == nil {
+		return nil, false
+	}
+	switch fieldName {
+	case "Source":
+		return a.Source.Content, true
+	case "PreferredUsername":
+		return a.Name, true
+	}
+	return reflect.ValueOf(a).Elem().FieldByName(fieldName).Interface().(vocab.NaturalLanguageValues), true
 }
 
 func checkText(c *Ctx, prop, form, codec, class, s string) {
@@ -223,6 +276,13 @@ func checkText(c *Ctx, prop, form, codec, class, s string) {
 	if !ok {
 		c.Fail(sigBase+"|wrong-type", fmt.Sprintf("decoding %s gave %T", label, got), map[string]any{"case": label, "bytes": clipB(b)})
 		return
+	}
+	if strings.HasSuffix(carrier, "nested=true") {
+		fieldName := map[string]string{"name": "Name", "summary": "Summary", "content": "Content", "preferredUsername": "PreferredUsername", "source.content": "Source", "source.content-only": "Source"}[prop]
+		if on, ok := outerTextOf(got, fieldName); !ok || len(on) != 1 || string(on[0].Value) != outerText(s) {
+			c.Fail(sigBase+"|outer-text-changed", fmt.Sprintf("%s: the text of the enclosing value came back as %q, stored %q", label, on, outerText(s)),
+				map[string]any{"case": label, "stored": fmt.Sprintf("%q", outerText(s)), "got": fmt.Sprintf("%q", on), "bytes": clipB(b)})
+		}
 	}
 	jsonCodec := codec[:4] == "json"
 	if len(gotN) != len(want) {
